@@ -92,6 +92,15 @@ def el_abs(x):
     raise Unsupported(f'abs of {x!r}')
 
 
+def el_min(a, b):
+    if is_num(a) and is_num(b):
+        return min(a, b)
+    if isinstance(a, SV) or isinstance(b, SV):
+        ea, eb = to_z3(a), to_z3(b)
+        return SV(z3.If(ea <= eb, ea, eb))
+    raise Unsupported(f'min of {a!r},{b!r}')
+
+
 def el_max(a, b):
     if is_num(a) and is_num(b):
         return max(a, b)
@@ -212,8 +221,11 @@ class XT:
 
     def _cmp(self, o, f):
         b = as_array(o)
-        r = f(self.a, b)
-        return XT(r if isinstance(r, np.ndarray) else _obj(r), dtype=Token('torch.bool'))
+        aa, bb = np.broadcast_arrays(self.a, b)
+        r = np.empty(aa.shape, dtype=object)
+        for idx in np.ndindex(*aa.shape):
+            r[idx] = f(aa[idx], bb[idx])       # element-wise; symbolic comparisons stay symbolic (no truth-value conversion)
+        return XT(r, dtype=Token('torch.bool'))
 
     def __lt__(self, o): return self._scalar_cmp(o, lambda a, b: a < b)
     def __le__(self, o): return self._scalar_cmp(o, lambda a, b: a <= b)
@@ -410,6 +422,14 @@ class XT:
 
     def m_clamp_min(self, m):
         return self._new(_map(lambda x: el_max(x, m), self.a))
+
+    def m_clamp(self, min=None, max=None):
+        out = self.a
+        if min is not None:
+            out = _map(lambda x: el_max(x, min), out)
+        if max is not None:
+            out = _map(lambda x: el_min(x, max), out)
+        return self._new(out)
 
     def m_diagonal(self, offset=0, dim1=0, dim2=1):
         return self._alias(self._new(np.diagonal(self.a, offset=offset, axis1=dim1, axis2=dim2)))
@@ -830,7 +850,7 @@ def t_abs(x):
 
 
 def t_is_tensor(x):
-    return isinstance(x, XT)
+    return isinstance(x, XT) or bool(getattr(x, 'is_time_tensor', False))
 
 
 def t_as_strided(x, size, stride):
